@@ -99,7 +99,7 @@ PROPS['C02'] = {
 PROPS['C13'] = {
     'title': 'Affine transforms obey matrix algebra and commute with the algorithms',
     'level': 'proof',
-    'verus': ['c13_affine'],
+    'verus': ['c13_affine', 'c13_layer'],
     'kani': [
         ('geo', 'c13.rs', r'^c13_k_(inverse_none_iff_singular|inverse_f64_none_iff_singular|builders)$', 'complete', 'quick'),
         ('geo', 'c13.rs', r'^c13_k_(inverse_roundtrip|compose_many|inverse_f64_turn|inverse_f64_scale2)', 'bounded', 'quick'),
@@ -117,7 +117,8 @@ PROPS['C13'] = {
                 'sin_cos / tan / to_radians uninterpreted'],
     'undecided_clauses': [
         'commutation of every predicate and measure of the crate with exact similarity maps (only stated as lemmas over the spec functions of C02/C05 where those functions are proved equal to their specs)',
-        'skew (uses abs and a float literal threshold), Rotate/Scale/Skew/Translate trait layer origins (centroid / bounding-box centre)',
+        'AffineTransform::skew constructor (uses abs and a float literal threshold): its matrix is not proved, only which origin the Skew layer passes to it',
+        'Rotate/Scale/Skew/Translate trait layer (unit c13_layer): WHICH matrix about WHICH origin is proved against abstract AffineOps / Centroid / BoundingRect / matrix constructors; that AffineOps applies the matrix to every coordinate of every geometry type (map_coords) is assumed',
         'inverse for general float matrices (rounding); only None <=> singular on the lattice and exact cases',
     ],
 }
